@@ -1545,6 +1545,7 @@ async fn coord_task(io: tokio::io::DuplexStream, sh: Arc<Mutex<CShared>>) {
                                 did,
                                 DeliveryState::TransactionalState(TransactionalState { txn_id: posted_id.unwrap_or_else(|| Binary::from(vec![])), outcome: Some(Outcome::Rejected(Rejected { error: Some(txn_err(&arg)) })) }),
                             )),
+                            "L" => Some(disposition(did, DeliveryState::Released(fe2o3_amqp::types::messaging::Released {}))),
                             "N" => {
                                 detached_by_us.push(h);
                                 Some(Performative::Detach(Detach { handle: h.into(), closed: true, error: Some(txn_err("Timeout")) }))
@@ -2774,6 +2775,155 @@ pub fn run_model(seed: u64, n: u64, thorough: bool, corpus: &[String], dir: &str
             out.violation("c18-panic", &format!("c18-panic: the case panicked: {}", line), &line);
         }
         out.case(&line, &a);
+    }
+    out.finish(dir);
+}
+
+
+// ==========================================================================================
+// Part 4: the controller against the Coq model coq/Txn/Controller.v (sub `ctlm`)
+// ==========================================================================================
+
+/// `ctlm | ctl ; snd 1 ; op ; ...` - the txn-c scripts restricted to the model's alphabet (one shared Controller, one
+/// sender; decl / post / commit / rollback / disch / drop; the coordinator answers declared(id) / accepted / rejected(cond) /
+/// released, transactional accepted / rejected for posts).  The trace is the txn-c trace as it is; the model prints the same.
+fn gen_case_cm(r: &mut Rng, thorough: bool) -> String {
+    const IDS: [&str; 7] = ["0a0b", "00", "7f", "ff", "0a0b", "000102030405060708090a0b0c0d0e0f", "0a0b0c0d"];
+    let conds = ["UnknownId", "Rollback", "Timeout", "InternalError"];
+    let mut ops: Vec<String> = vec!["ctl".into(), "snd 1".into()];
+    let len = if thorough { r.range(2, 16) } else { r.range(2, 10) };
+    let mut ndecl = 0u64;
+    let mut m = 0u64;
+    for _ in 0..len {
+        let dis = |r: &mut Rng| -> String {
+            match r.below(8) {
+                0..=3 => "A".to_string(),
+                4 | 5 => format!("R:{}", r.pick(&conds)),
+                6 => "L".to_string(),
+                _ => format!("D:{}", r.pick(&IDS)),
+            }
+        };
+        let k = if ndecl == 0 { 0 } else if r.chance(1, 12) { ndecl } else { r.below(ndecl) };
+        let c = r.below(if ndecl == 0 { 3 } else { 12 });
+        match c {
+            0 | 1 | 2 => {
+                let a = match r.below(8) {
+                    0..=4 => format!("D:{}", r.pick(&IDS)),
+                    5 => format!("R:{}", r.pick(&conds)),
+                    6 => "A".to_string(),
+                    _ => "L".to_string(),
+                };
+                ops.push(format!("decl {}", a));
+                ndecl += 1;
+            }
+            3 | 4 | 5 => {
+                let a = match r.below(4) {
+                    0 | 1 => "TA".to_string(),
+                    2 => format!("TR:{}", r.pick(&conds)),
+                    _ => format!("R:{}", r.pick(&conds)),
+                };
+                ops.push(format!("post {} 1 {} {}", k, m, a));
+                m += 1;
+            }
+            6 | 7 => ops.push(format!("commit {} {}", k, dis(r))),
+            8 | 9 => ops.push(format!("rollback {} {}", k, dis(r))),
+            10 => ops.push(format!("disch {} {} {}", k, r.below(2), dis(r))),
+            _ => ops.push(format!("drop {}", k)),
+        }
+    }
+    format!("ctlm | {}", ops.join(" ; "))
+}
+
+fn enum_cases_m() -> Vec<String> {
+    let mut v = Vec::new();
+    let tails = [
+        "commit 0 A", "commit 0 R:Rollback", "commit 0 L", "commit 0 D:00", "rollback 0 A", "rollback 0 R:UnknownId", "rollback 0 L", "drop 0",
+        "disch 0 0 A", "disch 0 1 A", "disch 0 0 R:Timeout", "disch 0 1 L", "post 0 1 0 TA", "post 0 1 0 TR:Rollback", "post 0 1 0 R:Timeout", "commit 1 A",
+    ];
+    for d in ["decl D:0a0b", "decl R:Timeout", "decl A", "decl L"] {
+        v.push(format!("ctlm | ctl ; snd 1 ; {}", d));
+        for a in tails {
+            v.push(format!("ctlm | ctl ; snd 1 ; {} ; {}", d, a));
+            for b in tails {
+                v.push(format!("ctlm | ctl ; snd 1 ; {} ; {} ; {}", d, a, b));
+            }
+        }
+    }
+    v.push("ctlm | ctl ; snd 1 ; decl D:0a0b ; decl D:0a0b ; commit 0 A ; post 1 1 0 TA ; commit 1 A".into());
+    v.push("ctlm | ctl ; snd 1 ; decl D:00 ; decl D:7f ; post 1 1 0 TA ; post 0 1 1 TA ; rollback 1 A ; commit 0 A".into());
+    v
+}
+
+pub fn run_model_c(seed: u64, n: u64, thorough: bool, corpus: &[String], dir: &str) {
+    crate::codec::quiet_panics();
+    let mut out = Outputs::new(dir);
+    let mut r = Rng::new(seed ^ 0x63746c6d);
+    let mut lines: Vec<String> = corpus.iter().filter(|l| l.starts_with("ctlm")).cloned().collect();
+    if n > 0 {
+        let e = enum_cases_m();
+        let take = if thorough { e.len() } else { e.len().min((n / 2) as usize) };
+        let stride = (e.len() / take.max(1)).max(1);
+        lines.extend(e.into_iter().step_by(stride).take(take));
+        for _ in 0..n {
+            lines.push(gen_case_cm(&mut r, thorough));
+        }
+    }
+    let mut seen = std::collections::HashSet::new();
+    for line in lines {
+        if !seen.insert(line.clone()) {
+            continue;
+        }
+        let real = line.replacen("ctlm", "txn-c", 1);
+        let trace = run_case_c(&real);
+        // the direct oracle of txn-c knows the answers a well-behaved coordinator gives (declared to a declare, accepted /
+        // rejected to a discharge); the other combinations are judged here: a terminal state that is not the success
+        // state of the call must not be reported as success
+        let opsv: Vec<Vec<&str>> = real.split('|').nth(1).unwrap_or("").split(';').map(|x| x.split_whitespace().collect::<Vec<_>>()).filter(|x| !x.is_empty()).collect();
+        let cross = opsv.iter().any(|w| match w[0] {
+            "decl" => matches!(w.get(1).cloned(), Some("A") | Some("L")),
+            "commit" | "rollback" => w.get(2).map(|a| *a == "L" || a.starts_with("D:")).unwrap_or(false),
+            "disch" => w.get(3).map(|a| *a == "L" || a.starts_with("D:")).unwrap_or(false),
+            _ => false,
+        });
+        if !cross {
+            for w in oracle_c(&real, &trace) {
+                let class = w.split(':').next().unwrap_or("c18-controller").to_string();
+                out.violation(&class, &w, &line);
+            }
+        } else {
+            let steps: Vec<&str> = trace.split('#').next().unwrap_or("").split(';').map(|x| x.trim()).collect();
+            for (idx, w) in opsv.iter().enumerate() {
+                let res = steps.get(idx + 1).map(|st| st.split('/').next().unwrap_or("").trim()).unwrap_or("");
+                let ans = match w[0] {
+                    "decl" => w.get(1).cloned(),
+                    "commit" | "rollback" => w.get(2).cloned(),
+                    "disch" => w.get(3).cloned(),
+                    _ => None,
+                };
+                if let Some(a) = ans {
+                    let wrong = if w[0] == "decl" { a == "A" || a == "L" } else { a == "L" || a.starts_with("D:") };
+                    let wrote = steps.get(idx + 1).map(|st| st.contains("T0:")).unwrap_or(false);
+                    if wrong && wrote && res.starts_with("ok") {
+                        out.violation(
+                            "c18-outcome-misreported",
+                            &format!("c18-outcome-misreported: `{}` at step {}: the coordinator answered {} (neither the success state of this call nor a rejection) but the call returned {}", w.join(" "), idx + 1, a, res),
+                            &line,
+                        );
+                    }
+                }
+            }
+        }
+        let ops = line.matches(';').count();
+        out.count(&format!("ops: {}", ops.min(12)));
+        for verb in ["decl", "post", "commit", "rollback", "disch", "drop"] {
+            if line.contains(&format!("; {} ", verb)) {
+                out.count(&format!("has {}", verb));
+            }
+        }
+        if trace.contains("disch(") && trace.contains("ok(") {
+            out.nontrivial(&line);
+        }
+        out.case(&line, &trace);
     }
     out.finish(dir);
 }
